@@ -126,14 +126,20 @@ before the corresponding `fix:` commit of /repo (`preFix`, kept for the regressi
 * `reaperDetached`    – 32185a9: `task_reaper` only calls `cmd[1].cancel()` (was: `…; await cmd[1]`, which made every
   later cancellation wait for the cancelled task's clean-up)
 * `tupleKeys`         – ef1f444: the unique-name maps are keyed by the tuple `(ctx_name, name)` and `name2id` compares
-  the context component (was: the string `f"{ctx_name}.{name}"` and a `startswith` test) -/
+  the context component (was: the string `f"{ctx_name}.{name}"` and a `startswith` test)
+* `legacyClaimsEmptyName` – dc7ca82: the legacy `do_func_call` guards the decorator's claim with
+  `if task_unique is not None and …` (was: `if task_unique and …`, the truthiness of the name, so `@task_unique("")`
+  never claimed) -/
 structure Cfg where
   legacyClaimKillMe : Bool
   reaperDetached : Bool
   tupleKeys : Bool
+  legacyClaimsEmptyName : Bool
 
-def current : Cfg := { legacyClaimKillMe := true, reaperDetached := true, tupleKeys := true }
-def preFix : Cfg := { legacyClaimKillMe := false, reaperDetached := false, tupleKeys := false }
+def current : Cfg :=
+  { legacyClaimKillMe := true, reaperDetached := true, tupleKeys := true, legacyClaimsEmptyName := true }
+def preFix : Cfg :=
+  { legacyClaimKillMe := false, reaperDetached := false, tupleKeys := false, legacyClaimsEmptyName := false }
 
 /-- one reaper iteration: pop, `cancel()`; when `awaits` (pre-fix shape) it then awaits that task and takes no further
 command while it runs -/
@@ -185,6 +191,10 @@ def decoNewStep (s : St κ) (t : Task) (k : κ) (km : Bool) : St κ :=
 `unique_name_used` check is `nameUsed` in the state in which the trigger loop ran) -/
 def decoLegacyStep (cfg : Cfg) (s : St κ) (t : Task) (k : κ) (km : Bool) : St κ :=
   uniqueStep s t k (cfg.legacyClaimKillMe && km)
+
+/-- the same with the guard in front of it: `nonEmpty` says whether the decorator's name is a non-empty string -/
+def decoLegacyNamed (cfg : Cfg) (s : St κ) (t : Task) (k : κ) (km nonEmpty : Bool) : St κ :=
+  if cfg.legacyClaimsEmptyName || nonEmpty then decoLegacyStep cfg s t k km else s
 
 def step (s : St κ) : Op κ → St κ
   | .spawn t fg => spawnStep s t fg
